@@ -152,6 +152,45 @@ func (r *c10Run) finish(w *ndWriter, kind string) {
 	w.write(E{"nsubs": r.nsubs, "handler": r.handler != nil, "mapped": r.mapped, "kind": kind, "events": evs})
 }
 
+// lifecycle of a subscriber list: it runs empty and is used again (a derived publisher must still be fed by its origin), and the
+// handler is configured AFTER the first subscription / replaced by another one (deliveries follow the handler set at Publish time)
+func c10Lifecycle(w *ndWriter, mapped, useHandler bool, variant int) {
+	r := newC10(mapped, false)
+	if useHandler {
+		r.subscribe() // subscribed before any handler is configured
+		mk := func(name string) *fpgo.HandlerDef {
+			h := fpgo.Handler.New()
+			ch := make(chan int64, 1)
+			h.Post(func() { ch <- gid() })
+			g := <-ch
+			r.mu.Lock()
+			r.thr[g] = name
+			r.mu.Unlock()
+			return h
+		}
+		if variant == 1 { // h0 first, replaced by h: nothing may be delivered on h0
+			h0 := mk("h0")
+			defer h0.Close()
+			r.subPub.SubscribeOn(h0)
+			r.subscribe()
+		}
+		r.handler = mk("h")
+		r.subPub.SubscribeOn(r.handler)
+	}
+	a, b := r.subscribe(), r.subscribe()
+	r.publish(1, 10)
+	for id := 1; id <= r.nsubs; id++ {
+		r.unsubscribe(id)
+	}
+	_, _ = a, b
+	r.publish(2, 20) // nobody is registered
+	r.subscribe()
+	r.publish(3, 30)
+	r.subscribe()
+	r.publish(4, 40)
+	r.finish(w, "ok")
+}
+
 // behaviours of a subscription inside its callback (for the outer value 100 only)
 // 0 noop, 1 unsubscribe itself, 2/3 unsubscribe another one, 4 subscribe a new one, 5 publish a nested value
 func c10Reentrant(w *ndWriter, behav []int, mapped, useHandler bool) {
@@ -397,6 +436,12 @@ func c10Main(args []string) error {
 		}
 		c10Gated(w, 1, []int{2}, true)
 		runs++
+		for _, mapped := range []bool{false, true} {
+			c10Lifecycle(w, mapped, false, 0)
+			c10Lifecycle(w, mapped, true, 0)
+			c10Lifecycle(w, mapped, true, 1)
+			runs += 3
+		}
 		for i := 0; i < rounds; i++ {
 			c10Stress(w, rng, 1+rng.Intn(4), 1+rng.Intn(4), i%4 == 1, i%4 == 2)
 			c10SubscribeRace(w, 8, 3)
